@@ -164,6 +164,13 @@ func cmdSelftest(args []string) int {
 		fmt.Printf("selftest: UTF-8 validity formula == utf8.Valid on %d byte strings\n", n)
 	}
 
+	if n, bad := gosym.SelfTestSelectByte(); bad != "" {
+		fails++
+		fmt.Println("SELFTEST FAIL:", bad)
+	} else {
+		fmt.Printf("selftest: symbolic index into a constant table == the table on %d (table, width, index) triples\n", n)
+	}
+
 	// 3. regosym concrete mode vs real OPA on fixture pairs
 	dirs, _ := filepath.Glob(filepath.Join(repoDir, "test/data/integration/*"))
 	tck, _ := filepath.Glob(filepath.Join(repoDir, "test/data/tck/*/*"))
